@@ -382,9 +382,10 @@ def _c06r8(ctx):
 def _unparser_syntax(ctx):
     """With the `oneliner` unparser the text is well formed only if the unparser's skeletons are:
     the syntax-critical rules of C03 (corners, skeletons, lambda signature) are necessary here too."""
-    from . import c03
+    from . import c03, c04
 
-    return [c03.rule_r4(ctx), c03.rule_r4b(ctx), c03.rule_r5(ctx), c03.lambda_skeleton_rule(ctx)]
+    # ... and the f-string field structure of C04-R3 (`{{` is an escape, a lone `}` a syntax error)
+    return [c03.rule_r4(ctx), c03.rule_r4b(ctx), c03.rule_r5(ctx), c03.lambda_skeleton_rule(ctx), c04.rule_r3(ctx)]
 
 
 RULES = [("C06-R8", _c06r8), ("C03-syntax", _unparser_syntax), ("C02-R1", rule_r1), ("C02-R2", rule_r2), ("C02-R3", rule_r3), ("C02-R4", rule_r4), ("C02-R5", rule_r5)]
